@@ -16,6 +16,7 @@ use std::sync::atomic::{AtomicU64, Ordering};
 use std::sync::Arc;
 
 mod extra;
+mod rabufcmd;
 
 pub fn hex(b: &[u8]) -> String {
     let mut s = String::with_capacity(b.len() * 2 + 1);
@@ -756,6 +757,7 @@ fn main() {
             }
             run(&args[2], &args[3], dump, timeout);
         }
+        "rabuf" | "rabuf-inner" => rabufcmd::main(&args[1], &args[2..]),
         other => extra::main(other, &args[2..]),
     }
 }
